@@ -218,6 +218,8 @@ def work(item, tier, seed):
     kinds = basis_kinds(m, kind, nt)
     if mode == 'self':
         kinds = [k for k in kinds if k[0] in ('cells', 'boundary', 'interior-trial0-test1', f'cells{[nt - 1]}')]
+    if nt >= 2:
+        naming_equivalence(out, m, kind, ea, sname, lab)
     nk = 0
     for blab, mk_u, mk_v in kinds:
         try:
@@ -231,6 +233,64 @@ def work(item, tier, seed):
             reconstruct_basis(out, m, kind, bb, ee, blab, role, sname, lab)
         run_case(out, m, sname, lab, kind, dim, an, bn, blab, ub, vb, mode, tier, nk)
     return out
+
+
+def _basis_arrays(b):
+    arrs = [np.asarray(b.dx), np.asarray(b.element_dofs)]
+    for tup in b.basis:
+        for f in tup:
+            for a in f.astuple:
+                if a is not None:
+                    arrs.append(np.asarray(a))
+    return arrs
+
+
+def naming_equivalence(out, m, kind, ent, sname, lab):
+    """The same cell / facet subset named in other index forms (int64, list, tuple of Python ints, negative indices counted
+    from the end as NumPy does) gives the identical basis: integrated entities, numbering, values, dx."""
+    from skfem import CellBasis, FacetBasis
+    nt = m.t.shape[1]
+    nf = m.facets.shape[1]
+    sig0 = "C01|cells|basis-"
+    for S in ((nt - 1,), (0, nt - 1)):
+        try:
+            ref = _basis_arrays(CellBasis(m, ent.make(), elements=np.array(S, dtype=np.int32), intorder=4))
+        except Exception:
+            return
+        forms = [('int64', np.array(S, dtype=np.int64)), ('list', [int(c) for c in S]),
+                 ('negative', np.array([c - nt for c in S], dtype=np.int64))]
+        for fl, sel in forms:
+            out.ev()
+            case = {'seed': sname, 'variant': lab, 'element': ent.name, 'cells': list(S), 'form': fl}
+            try:
+                got = _basis_arrays(CellBasis(m, ent.make(), elements=sel, intorder=4))
+            except Exception as e:
+                out.violation(sig0 + 'naming-exception', f"CellBasis(elements={sel!r}) raised {e!r} [{ent.name}, mesh {sname}:{lab}]", case=case)
+                continue
+            if len(got) != len(ref) or any(a.shape != b.shape or not np.allclose(a, b, rtol=1e-13, atol=1e-13 * (1 + np.abs(b).max(initial=0)))
+                                           for a, b in zip(got, ref)):
+                out.violation(sig0 + 'naming', f"CellBasis over cells {list(S)} named as {fl} ({sel!r}) differs from the same cells named "
+                              f"as an int32 array [{ent.name}, mesh {sname}:{lab}]", case=case)
+    if kind == 'wedge':
+        return
+    for F in ((nf - 1,), (0, nf - 1)):
+        try:
+            ref = _basis_arrays(FacetBasis(m, ent.make(), facets=np.array(F, dtype=np.int32), intorder=4))
+        except Exception:
+            return
+        for fl, sel in (('int64', np.array(F, dtype=np.int64)), ('negative', np.array([j - nf for j in F], dtype=np.int64))):
+            out.ev()
+            case = {'seed': sname, 'variant': lab, 'element': ent.name, 'facets': list(F), 'form': fl}
+            try:
+                got = _basis_arrays(FacetBasis(m, ent.make(), facets=sel, intorder=4))
+            except Exception as e:
+                out.violation("C01|facet|basis-naming-exception", f"FacetBasis(facets={sel!r}) raised {e!r} [{ent.name}, mesh {sname}:{lab}]",
+                              case=case)
+                continue
+            if len(got) != len(ref) or any(a.shape != b.shape or not np.allclose(a, b, rtol=1e-13, atol=1e-13 * (1 + np.abs(b).max(initial=0)))
+                                           for a, b in zip(got, ref)):
+                out.violation("C01|facet|basis-naming", f"FacetBasis over facets {list(F)} named as {fl} ({sel!r}) differs from the same "
+                              f"facets named as an int32 array [{ent.name}, mesh {sname}:{lab}]", case=case)
 
 
 def run_case(out, m, sname, lab, kind, dim, an, bn, blab, ub, vb, mode, tier, nk):
